@@ -19,7 +19,7 @@ EXPLANATION = (
     "a remote frame on the map's COB-ID; R6 mapped variables of a received frame read from pdo_parent.data (the object "
     "the reception stores into); R7 a map's handler is registered once however often subscribe() runs (callbacks once per "
     "frame); R8 remote and error frames are not delivered as data; R9 every variable write refreshes a running cyclic transmission; "
-    "R10 the bit-field codec (all rules of C05) is part of this property: the value read is the value written."
+    "R10 the bit-field codec (all rules of C05) is part of this property: the value read is the value written. R11 no class-level mutable object is mutated in place by instances (each node/client/map/dictionary has its own state)."
 )
 ASSUMPTIONS = [
     "not decided: values and schedules",
@@ -146,6 +146,10 @@ def run(chk):
     from . import c05
     from .common import RuleProxy
     c05.run(RuleProxy(chk, "R10"))
+
+    # ------------------------------------------------------------------ R11 instances are independent (shared clause)
+    from . import shared as _shared
+    _shared.isolation(chk, "R11", rels=['canopen/pdo/base.py', 'canopen/pdo/__init__.py', 'canopen/network.py'])
 
 
 def _blocks(fr, n, lab) -> bool:
